@@ -7,6 +7,18 @@ TB = ("Trusts: Coq 8.16.1 kernel (vm_compute for finite sweeps, no native_comput
       "hand-written control-flow models tied only by the differential correspondence (harness/*.c under ASan/UBSan vs the "
       "ExtrOcamlBasic-extracted model in ocaml/driver); C integer semantics modelled in Z under stated range hypotheses.")
 CLAIMED = {
+ "C01": ("Theorems c01_tag_iteration_safe, c01_radiotap_safe, c01_classify_safe, c01_fcs_safe, c01_pipeline_safe: every refinement theorem "
+         "instantiated with the read oracle that FAULTS outside the supplied buffer - for every byte string of every length, in both radiotap "
+         "modes, every parser applied to every classified frame returns (no fuel exhaustion), reads nothing outside the buffer or the "
+         "library's own copies, and yields success or a negative code. PARTIAL: machine-level undefined behaviour below the model (misaligned "
+         "typed loads, aliasing) is only observed by ASan/UBSan in the correspondence runs (exhaustive lengths 0..2, every truncation and "
+         "length/count perturbation of structured frames, mutation).",
+         "Rocq safety corollaries of read-oracle refinement proofs; sanitizer-instrumented differential correspondence"),
+ "C02": ("Theorems c02_classify_plain / c02_classify_radiotap: for every byte string the classifier returns exactly the Spec's slices "
+         "(radiotap length and FCS flag as decoded, frame control, header implied by type/subtype/order, body), c02_accept_iff, c02_layout "
+         "(compiled header sizes 24/28/4/24/26, bit-field positions for all 65536 frame-control values, QoS subtype set), c02_data_extract. "
+         "Compared field by field with the library on frame-control x length grids crossed with radiotap prefixes and the FCS flag.",
+         "Rocq refinement proof to a slice spec over translator-regenerated layouts; differential correspondence"),
  "C03": ("Theorems c03_<generator> (13) and c03_images: for ALL argument values and ANY list of appended well-formed tags (or details) the "
          "model of create_*/add/dump - struct images built at the compiled offsets, tags through the C05 model - serialises exactly the "
          "hand-written 802.11 byte layout, for every buffer size, with the reported length equal to the byte count; RTS/CTS/ATIM images "
@@ -40,6 +52,12 @@ CLAIMED = {
          "Spec's summary incl. the WEP and WPS rules). Compared with the library on every single-suite element (256 selectors x kinds x "
          "lists x OUIs), count/suite mismatches, truncation at every byte and random combinations.",
          "Rocq refinement proofs + 256-selector table sweeps over translator-regenerated switch tables"),
+ "C09": ("Theorems c09_total (every byte string, any chain of present words / namespaces / vendor data: the decoder terminates in bounds), "
+         "c09_refused (bad version, it_len < 8, > available, > 255), c09_length, c09_single_word (ALL 2^23 selections of the defined fields, all "
+         "values, arbitrary padding/trailing bytes: the values at the specification's aligned little-endian offsets), c09_table (the table as "
+         "compiled equals the specification's), c09_band_channel (all 65536 frequencies). PARTIAL for multi-word chains: covered by c09_total "
+         "and the model-implementation correspondence (per-antenna words, vendor namespaces), no functional spec theorem.",
+         "Rocq refinement proof by induction over the field list; differential correspondence"),
  "C11": ("Theorems c11_crc_exact (the C loop with constants re-read from the source computes the IEEE 802.3 32-stage division "
          "register, for every message and every in-bounds read oracle), c11_tbl_equiv (an independent table-driven CRC derived from G), "
          "c11_fcs_bytes, c11_verify_iff, c11_short_no. Compared with the library and with zlib on exhaustive short strings, the "
@@ -50,6 +68,25 @@ CLAIMED = {
          "exactly the big-endian fields at the standard offsets and the key data limited by declared length, cap and bytes present, with "
          "every body read inside the library's copy. Compared with the library on key-information sweeps and length grids.",
          "Rocq refinement proofs over a read-oracle model; differential correspondence"),
+ "C13": ("Theorems c13_*_env_independent: classification, radiotap decode, tag iteration, CRC and FCS verification give the same result for "
+         "ALL contents of memory beyond the buffer (read oracle arbitrary outside); parsers of a classified frame are functions of the "
+         "frame value, output objects are built from zero records; c13_no_state_between_calls (no writable library state, from the current "
+         "objects). PARTIAL: independence from optimisation level / hardening flags is observed, not proved - 27000 inputs are evaluated "
+         "in three builds (-O1+sanitizers, shipping -O2 flags, -O0) with different heap fill, output pre-fill, trailing bytes and preceding "
+         "call, and must agree field by field with each other and the model.",
+         "Rocq non-interference corollaries; three-build / three-environment differential comparison"),
+ "C14": ("Theorems c14_tags_history, c14_generators, c14_action, c14_parse_pipeline: in allocation skeletons that perform exactly each routine's "
+         "malloc/realloc/free calls (sizes and branches from the functional models), for EVERY edit history, EVERY byte string through "
+         "classify + all parsers, and EVERY allocation-failure schedule, no step double-frees, uses a released or NULL block, and after the "
+         "release routines no block is live. The skeleton's allocation trace (sizes, order, which block) is compared event by event with "
+         "the --wrap ledger of the library; F33 (no release routine for parsed deauth/disassoc) is an open finding. PARTIAL: the allocator "
+         "and ASan's detection are trusted.",
+         "Rocq invariant-by-induction over allocation skeletons; trace-level differential correspondence"),
+ "C15": ("Theorems c15_add_reported (a tag is reported stored iff stored; a failed add changes nothing and is -ENOMEM), c15_remove_safe, "
+         "c15_set_partial (F37: a failed setter may have removed the old element - open finding), c15_detail_reported, "
+         "c15_copy_parser_reported, plus C14's theorems for every schedule. Every allocation index of every scenario is failed in turn "
+         "(single failure and fail-from-k) and returns, crash class, stored bytes and ledger are compared with the skeleton.",
+         "Rocq proofs over failure schedules; exhaustive fault injection by link-time wrapping"),
  "C16": ("Theorem c16_no_writable_state: the list of writable / thread-local / COMMON data and function-local statics of the library's "
          "objects, re-derived from the current tree on every run (gcc + readelf), is empty; c16_interleaving / "
          "c16_schedules_indistinguishable: in a multi-thread semantics whose only shared component is that (empty) state, for ALL "
